@@ -166,7 +166,8 @@ def impl(case):
             ipm = io.BytesIO()
             mci_csv_to_ipm.mci_csv_to_ipm(in_csv=io.StringIO(text), out_ipm=ipm, config=config, out_encoding=case['codec'], no1014blocking=nb)
             out = io.StringIO()
-            mci_ipm_to_csv.mci_ipm_to_csv(in_ipm=io.BytesIO(ipm.getvalue()), out_csv=out, config=config, in_encoding=case['codec'], no1014blocking=nb)
+            from props.framing import in_stream
+            mci_ipm_to_csv.mci_ipm_to_csv(in_ipm=in_stream(ipm.getvalue(), case['blocked']), out_csv=out, config=config, in_encoding=case['codec'], no1014blocking=nb)
             return ipm.getvalue(), out.getvalue()
         base = os.path.join(os.getcwd(), 'c20_%d' % os.getpid())
         cfg_args, env_dir = [], None
